@@ -35,17 +35,20 @@ TRUSTED = [
     "VP-tree, through vp_inv_b on the dumped real tree",
     "std::priority_queue: top is a maximum (the model pops one fixed maximum; theorems speak about distances)",
     "VP-tree pivot draw uniform_random() is an oracle (any in-range value; theorem build_inv quantifies over it)",
-    "cover tree: ct_query_complete_partial is proved for the model of the batch query over any tree satisfying ct_inv_b and "
-    "relative to the audited validity of upper_bound[0]; that the real batch_create builds a tree satisfying ct_inv_b is "
-    "CHECKED on every dumped tree, not proved; batch_create/batch_insert/split/dist_split are modelled "
-    "(CoverTree_Build_Model.v, exact 13/10 arithmetic for pow/log) and the model's tree is compared node by node with the "
-    "dumped real tree, but nothing is proved about that model",
+    "cover tree: the three models (construction CoverTree_Build_Model.v, batch query CoverTree_Model.v with the F46 copy "
+    "radius, selection Knn_CoverSel_Model.v) are proved correct END TO END (covertree_pipeline_exact: every metric, every "
+    "k < N, one row per sample, every row a k-nearest set; no audited or run-time-checked hypothesis left inside the "
+    "models, only the arithmetical side condition that get_scale covers the largest distance, i.e. distances below "
+    "1.3^4000); what ties the models to the C++ is testing: the model-built tree is compared node by node with the dumped "
+    "real tree, ct_inv_b / ct_holds_b / leaf100_b are evaluated on the dumped real tree, the model query on the real tree "
+    "must return the real candidate sets, cand_complete_b is evaluated on the real candidate lists",
     "kernel flavour: sqrt is monotone and exact on perfect squares; rows are judged through squared distances",
     "extraction (ExtrOcamlBasic only) + OCaml 4.13.1 + coq/extract/c02_driver.ml (parsing/printing)",
     "harness/c02.cpp dump routines; g++ ASan/UBSan/_GLIBCXX_ASSERTIONS as the memory-safety observer",
 ]
 
 METHODS = ["B", "V", "C"]
+FAST = ("scatter", "copy_radius")      # generators whose cases go through the batched spec-only path
 MNAME = {"B": "brute force", "V": "VP-tree", "C": "cover tree"}
 SCALE100 = 1.3 ** 97    # distance ratio from which cover-tree scales can reach the magic number 100
 
@@ -160,6 +163,36 @@ def gen_wide(rng, nmax, dup):
         for _ in range(rng.randint(1, 3)):
             pts[rng.randrange(1, n)] = list(pts[rng.randrange(1, n)])
     return pts, ("wide_dup" if dup else "wide")
+
+
+def gen_copy_radius(rng):
+    """aimed at the query-side slack of copy_zero_set / copy_cover_sets (defect F46): a node point c, a query leaf q' at
+    distance m behind it, several witnesses at distance v from c in directions away from q' (so that they are exactly
+    v + m from q' and the bound of c is tight), and a sample x beyond q' at distance v + m - 1 (or - 2) from q', i.e.
+    about v + 2m from c; L1 in the plane, every k.  With ONE query max_dist in the copy tests about 1 such set in 100
+    gives a wrong row; random lattice sets hit it once in 3e6."""
+    m = rng.randint(2, 12)
+    v = rng.randint(2 * m, 4 * m)
+    sc = 1 << rng.randint(0, 3)
+    nw = rng.randint(3, 6)
+    P = [[0, 0], [-m, 0]]
+    for _ in range(nw):
+        a = rng.randint(0, v)
+        b = v - a
+        if rng.random() < 0.5:
+            b = -b
+        if rng.randrange(6) == 0 and a > 0:
+            a -= 1
+        P.append([a, b])
+    s = v + m - rng.randint(1, 2)
+    P.append([-m - s, 0 if rng.random() < 0.5 else rng.randint(-1, 1)])
+    if rng.random() < 0.5:
+        P.append([-m - s - rng.randint(1, m), rng.randint(-2, 2)])
+    for _ in range(rng.randint(0, 3)):
+        P.append([rng.randint(-3 * v, 3 * v), rng.randint(-3 * v, 3 * v)])
+    P = [[x * sc, y * sc] for x, y in P]
+    rng.shuffle(P)
+    return make_case(rng, "copy_radius", "D", len(P), None, l1(P), "copy_radius", full_ks=True, structural=False)
 
 
 def gen_ultrawide(rng, nmax):
@@ -388,6 +421,9 @@ def commands_for(c, structural=True):
                 cmds.append("O %d %d" % (k, row))
     if structural and c.get("structural", True) and c["ks"]:
         cmds.append("D")
+    if c.get("conn_k"):
+        for m in METHODS:
+            cmds.append("G %s %d" % (m, c["conn_k"]))
     return cmds
 
 
@@ -401,7 +437,7 @@ def ints(tokens):
 def parse_case_output(lines):
     """-> dict: F[(m,k)] = rows (dict q -> list) ; O[(k,row)] = list ; T[k] = {"nodes":[...], "rows":{q:[..]}} ;
     Q[k] = {q: cands} ; CT = {"nodes": [...]} ; bad = [messages]"""
-    res = {"F": {}, "O": {}, "T": {}, "Q": {}, "CT": None, "bad": [], "exc": []}
+    res = {"F": {}, "G": {}, "O": {}, "T": {}, "Q": {}, "CT": None, "bad": [], "exc": []}
     i = 0
     n = len(lines)
     while i < n:
@@ -410,7 +446,7 @@ def parse_case_output(lines):
         try:
             if not w:
                 continue
-            if w[0] == "F":
+            if w[0] in ("F", "G"):
                 m, k, nrows = w[1], int(w[2]), int(w[3])
                 rows = []
                 for _ in range(nrows):
@@ -419,7 +455,7 @@ def parse_case_output(lines):
                     if len(r) < 3 or r[0] != "r" or r[2] != ":":
                         raise ValueError("row line " + " ".join(r)[:60])
                     rows.append((int(r[1]), ints(r[3:])))
-                res["F"][(m, k)] = rows
+                res[w[0]][(m, k)] = rows
             elif w[0] == "O":
                 if w[3] == "R":
                     res["O"][(int(w[1]), int(w[2]))] = ints(w[5:])
@@ -588,21 +624,37 @@ def sub_case(c, idx):
     return d
 
 
-def fails_spec(ctx, exe, mexe, c, method, k):
+def conn_rows_k(rows, k, n):
+    """find_neighbors(.., k, check_connectivity = true) may return more than k neighbours per row (2k, 4k, .. clamped
+    to N-1): the number it settled on, or None when the rows are not all of one admissible length"""
+    lens = {len(r) for _, r in rows}
+    if len(lens) != 1:
+        return None
+    k2 = lens.pop()
+    return k2 if k <= k2 <= n - 1 else None
+
+
+def fails_spec(ctx, exe, mexe, c, method, k, conn=False):
     """does find_neighbors(method, k) violate is_knn_b (or crash) on case c?  -> None | why"""
     if not (1 <= k <= c["N"] - 1):
         return None
-    r = run_impl(ctx, exe, [c], [["F %s %d" % (method, k)]], timeout=20 if c["N"] <= 200 else 120)[0]
+    tag = "G" if conn else "F"
+    r = run_impl(ctx, exe, [c], [["%s %s %d" % (tag, method, k)]], timeout=20 if c["N"] <= 200 else 120)[0]
     if r["crashed"]:
         return "find_neighbors(%s, k=%d) aborts: %s" % (MNAME[method], k, str(r["sanitizer"])[:400])
     p = parse_case_output(r["lines"])
     if p["bad"] or p["exc"]:
         return "find_neighbors(%s, k=%d): %s" % (MNAME[method], k, (p["bad"] + p["exc"])[0])
-    rows = p["F"].get((method, k))
+    rows = p[tag].get((method, k))
     if rows is None:
         return "find_neighbors(%s, k=%d) printed no result" % (MNAME[method], k)
     if sorted(q for q, _ in rows) != list(range(c["N"])):
         return "find_neighbors(%s, k=%d) returned %d rows for %d samples" % (MNAME[method], k, len(rows), c["N"])
+    if conn:
+        k0, k = k, conn_rows_k(rows, k, c["N"])
+        if k is None:
+            return ("find_neighbors(%s, k=%d, check_connectivity=true) returned rows of lengths %s (admissible: one "
+                    "length between k and N-1=%d)" % (MNAME[method], k0, sorted({len(r) for _, r in rows}), c["N"] - 1))
     srows = sane_rows(rows, c["N"])
     if srows is None:
         return "find_neighbors(%s, k=%d) returned out-of-range sample indices" % (MNAME[method], k)
@@ -619,9 +671,9 @@ def fails_spec(ctx, exe, mexe, c, method, k):
 _REPORTED = {}
 
 
-def report_violation(ctx, exe, mexe, c, method, k, why):
+def report_violation(ctx, exe, mexe, c, method, k, why, conn=False):
     """shrink (drop samples) and record; at most two reports per (method, kind of failure)"""
-    key = (method, "abort" if "aborts" in why else "spec", dyn_signature(c, method, why))
+    key = (method, "abort" if "aborts" in why else "spec", dyn_signature(c, method, why), conn)
     _REPORTED[key] = _REPORTED.get(key, 0) + 1
     if _REPORTED[key] > 2:
         return
@@ -630,14 +682,16 @@ def report_violation(ctx, exe, mexe, c, method, k, why):
         def still(sub):
             if len(sub) <= k:
                 return False
-            return fails_spec(ctx, exe, mexe, sub_case(c, sub), method, k) is not None
+            return fails_spec(ctx, exe, mexe, sub_case(c, sub), method, k, conn) is not None
         try:
             idx = vlib.shrink_list(idx, still, max_steps=150)
         except vlib.BuildError:
             idx = list(range(c["N"]))
     small = sub_case(c, idx)
-    why2 = fails_spec(ctx, exe, mexe, small, method, k) or why
+    why2 = fails_spec(ctx, exe, mexe, small, method, k, conn) or why
     rep = {"gen": c["gen"], "kind": c["kind"], "N": small["N"], "method": method, "k": k}
+    if conn:
+        rep["conn"] = True
     rep["M" if c["kind"] == "D" else "X"] = small["M"] if c["kind"] == "D" else small["X"]
     if small.get("Mhex"):
         rep["Mhex"] = small["Mhex"]
@@ -676,6 +730,13 @@ def evaluate(ctx, exe, mexe, cases, stats, structural=True):
                         break
                 if hit:
                     break
+            if not hit and c.get("conn_k"):
+                for m in METHODS:
+                    why = fails_spec(ctx, exe, mexe, c, m, c["conn_k"], True)
+                    if why:
+                        report_violation(ctx, exe, mexe, c, m, c["conn_k"], why, True)
+                        hit = True
+                        break
             if not hit:
                 ctx.mismatch({"gen": c["gen"], "N": n, "kind": c["kind"], "M": c.get("M"), "X": c.get("X"), "ids": c.get("ids"), "kscale": c.get("kscale"),
                               "ks": c["ks"]},
@@ -709,6 +770,18 @@ def evaluate(ctx, exe, mexe, cases, stats, structural=True):
                     continue
                 text.append(rows_text(k, rows))
                 plan.append(("R", m, k, rows))
+            if k == c.get("conn_k"):
+                for m in METHODS:
+                    rows = p["G"].get((m, k))
+                    k2 = conn_rows_k(rows, k, n) if rows is not None and sane_rows(rows, n) is not None and \
+                        sorted(q for q, _ in rows) == list(range(n)) else None
+                    if k2 is None:
+                        why = fails_spec(ctx, exe, mexe, c, m, k, True) or \
+                            "find_neighbors(%s,k=%d,check_connectivity=true) output malformed" % (m, k)
+                        report_violation(ctx, exe, mexe, c, m, k, why, True)
+                        continue
+                    text.append(rows_text(k2, rows))
+                    plan.append(("G", m, k, rows))
             for (kk, row), sel in p["O"].items():
                 if kk == k and sel and all(0 <= j < n for j in sel):
                     text.append("NTH %d %d : %s\n" % (k, row, " ".join(str(j) for j in sel)))
@@ -784,6 +857,16 @@ def evaluate(ctx, exe, mexe, cases, stats, structural=True):
                         "%s k=%d query %d: returned row %s is not a set of k nearest other samples"
                         % (MNAME[m], k, bad, dict(rows)[bad]))
                     report_violation(ctx, exe, mexe, c, m, k, why)
+            elif item[0] == "G":
+                _, m, k, rows = item
+                got = take("R ", len(rows))
+                nrows += len(rows)
+                stats["rows_conn"] = stats.get("rows_conn", 0) + len(rows)
+                if any(g.partition("|")[0].split()[2] != "1" for g in got):
+                    why = fails_spec(ctx, exe, mexe, c, m, k, True) or (
+                        "%s k=%d check_connectivity=true: a returned row is not a set of nearest other samples"
+                        % (MNAME[m], k))
+                    report_violation(ctx, exe, mexe, c, m, k, why, True)
             elif item[0] == "N":
                 _, k, row = item
                 g = take("N ", 1)[0]
@@ -877,9 +960,11 @@ def evaluate(ctx, exe, mexe, cases, stats, structural=True):
                     continue
                 mrows = take("CQ ", int(g[2]))
                 if "audit=0" in g:
-                    # the theorem's audited hypothesis fails for this (tree, k): no claim from the proof here, the
-                    # completeness of the real candidate lists is still checked directly (cand_complete_b above)
+                    # ct_query_audit_true proves the flag true on every tree satisfying ct_inv_b with distinct leaves
+                    # (both were just checked): a false flag means the extracted model and the theorem disagree
                     stats["ct_audit_false"] = stats.get("ct_audit_false", 0) + 1
+                    ctx.mismatch(where, "audit flag false on a tree that satisfies ct_inv_b and ct_holds_b: "
+                                        "contradicts theorem ct_query_audit_true (model / extraction fault)")
                 if cq is not None:
                     real = {q: sorted(cs) for q, cs in cq}
                     for line in mrows:
@@ -1075,7 +1160,8 @@ def run(ctx):
     mexe = ctx.extract()
     stats, hist = {}, {}
     cases = []
-    for name, cj in ctx.corpus():
+    import os
+    for name, cj in ([] if os.environ.get("C02_NO_CORPUS") else ctx.corpus()):   # developer switch: generators only
         try:
             c = corpus_case(cj)
         except (KeyError, TypeError) as ex:
@@ -1115,6 +1201,8 @@ def run(ctx):
             P = [[rng.randint(0, r // 2), rng.randint(0, r // 2)] for _ in range(n)]
         c = make_case(rng, "scatter", "D", n, None, l1(P), "scatter", full_ks=True, structural=False)
         cases.append(c)
+    for _ in range(1500 if quick else 10000):
+        cases.append(gen_copy_radius(rng))
     if not quick:
         for n in (400, 1000, 2000):
             side = int(math.isqrt(n))
@@ -1136,17 +1224,21 @@ def run(ctx):
         if not c["gen"].startswith("corpus") and rng.random() < 0.34:
             add_ids(rng, c)
             stats["cases_with_id_range"] = stats.get("cases_with_id_range", 0) + 1
+    # one probe per non-batched case of find_neighbors(.., check_connectivity = true) (the retry path doubles k and clamps it)
+    for c in cases:
+        if c["gen"] not in FAST and c["N"] <= 150 and c["ks"]:
+            c["conn_k"] = rng.choice(c["ks"][:3])
     for c in cases:
         hist[c["gen"]] = hist.get(c["gen"], 0) + 1
-        if c["gen"] != "scatter":
+        if c["gen"] not in FAST:
             tie_stats(c, stats)
         if c["N"] <= 60 and not c["gen"].startswith("corpus"):
             T, exact = model_table(c)
             if exact and not c.get("order_only") and not is_metric(T):
                 raise vlib.BuildError("generator bug: non-metric table from " + c["gen"])
     n = 0
-    scatter = [c for c in cases if c["gen"] == "scatter"]
-    small = [c for c in cases if c["N"] <= 150 and c["gen"] != "scatter"]
+    scatter = [c for c in cases if c["gen"] in FAST]
+    small = [c for c in cases if c["N"] <= 150 and c["gen"] not in FAST]
     large = [c for c in cases if c["N"] > 150]
     for i in range(0, len(small), 150):
         n += evaluate(ctx, exe, mexe, small[i:i + 150], stats)
@@ -1223,7 +1315,7 @@ def replay(ctx, case):
         for m in methods:
             r = run_impl(ctx, exe, [c], [["F %s %d" % (m, k)]], timeout=60)[0]
             print("\n".join(r["lines"][:40]))
-            why = fails_spec(ctx, exe, mexe, c, m, k)
+            why = fails_spec(ctx, exe, mexe, c, m, k, bool(case.get("conn")))
             if why:
                 print("replay: property C02 FAILS: " + why[:1200])
                 rc = 1
